@@ -5,7 +5,6 @@ import (
 	"go/ast"
 	"go/token"
 	"go/types"
-	"strings"
 )
 
 // stack/stale-after-reentry (C10, C01): the value stack is reallocated when it
@@ -95,12 +94,12 @@ func runStaleStack(c *Ctx) {
 					}
 				}
 			case *ast.SliceExpr:
-				if strings.HasSuffix(types.ExprString(ast.Unparen(x.X)), ".stack") {
+				if isThreadStack(info, x.X) {
 					found = true
 				}
 			case *ast.UnaryExpr:
 				if x.Op == token.AND {
-					if ix, ok := ast.Unparen(x.X).(*ast.IndexExpr); ok && strings.HasSuffix(types.ExprString(ast.Unparen(ix.X)), ".stack") {
+					if ix, ok := ast.Unparen(x.X).(*ast.IndexExpr); ok && isThreadStack(info, ix.X) {
 						found = true
 					}
 				}
@@ -230,4 +229,15 @@ func runStaleStack(c *Ctx) {
 			c.Check(stale == token.NoPos, key, stale, "%s keeps `%s`, an address into the value stack taken at %s, and uses it again at %s after a call that can run Elk code or grow the stack: if the stack was reallocated in between, this touches the abandoned copy and the outcome depends on the configured stack size", FuncName(fr.Decl), t.obj.Name(), c.Pos(t.pos), c.Pos(stale))
 		}
 	})
+}
+
+// isThreadStack: the expression is the `stack` field of a Thread (the value
+// stack that growValueStack reallocates), not the saved stack of a Generator,
+// which lives on the heap and never moves.
+func isThreadStack(info *types.Info, e ast.Expr) bool {
+	sel, ok := ast.Unparen(e).(*ast.SelectorExpr)
+	if !ok || sel.Sel.Name != "stack" {
+		return false
+	}
+	return NamedOf(info.TypeOf(sel.X)) == "vm.Thread"
 }
